@@ -30,7 +30,11 @@ MEMBERS = [
     ("type_t::create_array", r"^type_t type_t::create_array\(type_t sub, type_t size, position_t pos\)"),
     ("type_t::get_range", r"^std::pair<expression_t, expression_t> type_t::get_range\(\) const"),
     ("type_t::get_expression", r"^expression_t type_t::get_expression\(\) const"),
+    ("type_t::get_position", r"^position_t type_t::get_position\(\) const"),
+    ("type_t::rename", r"^type_t type_t::rename\(const std::string& from, const std::string& to\) const"),
+    ("type_t::subst", r"^type_t type_t::subst\(symbol_t symbol, expression_t expr\) const"),
 ]
+DEFAULT_SKIP = ("type_t::get_position", "type_t::rename", "type_t::subst")  # only sliced when asked for by name
 
 ALL_OF = re.compile(r"return std::all_of\(([\w\->\.]+)\.begin\(\), \1\.end\(\),\s*\[[^\]]*\]\(const (\w+)& (\w+)\) \{ return (.*?); \}\);", re.S)
 
@@ -58,7 +62,8 @@ def type_class():
     i = sl.text.rindex("};")
     sl.text = sl.text[:i] + ("public:\n    /* G2: contracts of the recursive members on a child (ghost summaries) */\n"
                              "    bool is__contract(Constants::kind_t kind) const;\n    bool is_mutable__contract() const;\n    bool is_constant__contract() const;\n"
-                             "    type_t get_sub__contract() const;\n    type_t get_sub__contract(uint32_t) const;\n    type_data* verif_data() const { return data; }\n") + sl.text[i:]
+                             "    type_t get_sub__contract() const;\n    type_t get_sub__contract(uint32_t) const;\n    type_data* verif_data() const { return data; }\n"
+                             "    type_t subst__contract(symbol_t symbol, expression_t expr) const;\n    type_t rename__contract(const std::string& from, const std::string& to) const;\n") + sl.text[i:]
     sl.rules["G2:contract-members-appended"] = 1
     return sl
 
@@ -81,6 +86,8 @@ def type_members(l12=(), names=None):
     out = []
     for name, rx in MEMBERS:
         if names is not None and name not in names:
+            continue
+        if names is None and name in DEFAULT_SKIP:
             continue
         sl = X.function(src, name, rx)
         if name in ("type_t::is_constant", "type_t::is_mutable"):
